@@ -357,7 +357,13 @@ pub fn send_to_gui(message: &str) {
 pub fn read_from_gui() -> String {
     let stdin = io::stdin();
     let mut buffer = String::new();
-    if stdin.lock().read_line(&mut buffer).unwrap() == 0 {
+    let bytes_read = match stdin.lock().read_line(&mut buffer) {
+        // a line that is not valid UTF-8 has been consumed and has left the buffer empty: it is
+        // input the engine does not understand and is skipped like any other unknown command
+        Err(e) if e.kind() == io::ErrorKind::InvalidData => 1,
+        other => other.unwrap(),
+    };
+    if bytes_read == 0 {
         // end of input: the GUI is gone, so there is nothing left to serve
         info!("ENGINE << <end of input>");
         process::exit(0);
